@@ -16,6 +16,9 @@ def main():
     jobs = [("C%02d" % i, n) for i in range(1, 20) for n in (1, 2)
             if os.path.exists(SD + "/C%02d/patch%d.diff" % (i, n)) and
             not os.path.exists("/verif/seeded/C%02d-%d/meta.json" % (i, n + OFF))]
+    if len(sys.argv) > 3:
+        only = sys.argv[3].split(",")
+        jobs = [j for j in jobs if j[0] in only]
     q = queue.Queue()
     for s in range(nslots):
         q.put(s)
